@@ -336,7 +336,8 @@ def replay(ctx, obj):
 META = {
     "category": "proof",
     "technique": "Coq proof on a fragment model (words) + kernel-evaluated correspondence + whole-language differential search",
-    "text": ("Coq theorem C01_word_roundtrip: for every well-formed word of the fragment (literals with escapes, single, "
+    "text": ("Level S (statements: lists, ! && || |, blocks, subshells, if/elif/else, while/until): C01_stmt_roundtrip_partial (SingleLine) and C01_stmt_roundtrip_default_partial (default multi-line layout, Indent n, BinaryNextLine): parse (print t) = norm t for ALL well-formed fragment trees (MiniAst/MiniPrinter/MiniPrinterML/MiniParser transliterations, tied to the real printer/parser byte-for-byte by the c01s code leg); one simple command with assignments and redirections: printer layout theorem only. Level W: "
+             "Coq theorem C01_word_roundtrip: for every well-formed word of the fragment (literals with escapes, single, "
              "dollar-single and double quotes, $x/${x}), both Minify settings and every word-ending delimiter, lexing the printed "
              "word returns the word modulo the property's cosmetic rewrites (all words, by induction). The model is tied to the code on "
              "every run: real Printer bytes and real Parser parts for generated and corpus fragment words are compared with the model "
